@@ -323,7 +323,12 @@ func FuzzC19Unmarshal(f *testing.F) {
 			f.Add(append([]byte{byte(i)}, g.Example(k)...))
 		}
 	}
+	begun := false
 	f.Fuzz(func(t *testing.T, data []byte) {
+		if !begun { // once: attributes violations to this target, not to the test that ran before
+			begun = true
+			ev.Begin(t)
+		}
 		if len(data) == 0 {
 			return
 		}
